@@ -101,4 +101,6 @@ class Server:
             sig = sig + b"\x00"
         if self.tamper == "no-signature":
             return b"e=other-error"
+        if self.tamper == "empty-final-message":
+            return b""
         return ("v=" + base64.b64encode(sig).decode()).encode("utf-8")
